@@ -124,6 +124,9 @@ func runC01(c *core.Case) *core.Result {
 			c.Step("--- repetition %d of the same script (map-iteration randomness)", rep)
 		}
 		g := crdt.NewGen(c.Rng)
+		if sh.typ != "counter" && c.Index%8 >= 4 {
+			g.Exotic = 0.15 // Go-native values: typed numerics, pointers, structs, typed containers
+		}
 		h := crdt.NewHist(c, g, sh.typ, sh.nrep)
 		AttachIDMonitor(c, h)
 		if rep == 0 {
